@@ -262,3 +262,28 @@ func paramOnlyRead(fn *ssa.Function, k int) bool {
 	}
 	return true
 }
+
+// WithHelpers returns fn, its closures, and the unexported functions of its package that only fn
+// (or its closures) calls, synchronously: the scope a rule about "what fn does" has to read when
+// parts of fn may have been extracted into helpers.
+func WithHelpers(p *Prog, fn *ssa.Function) []*ssa.Function {
+	out := WithAnons(fn)
+	al := map[string]bool{FuncName(TopFunc(fn)): true}
+	seen := map[*ssa.Function]bool{}
+	for _, f := range out {
+		seen[f] = true
+	}
+	for i := 0; i < len(out); i++ {
+		for _, cs := range Sites(out[i], func(in ssa.Instruction) bool { _, ok := in.(*ssa.Call); return ok }) {
+			h := cs.Call().Common().StaticCallee()
+			if h == nil || seen[h] || h.Blocks == nil || h.Pkg != fn.Pkg || isExportedName(h.Name()) {
+				continue
+			}
+			if helperOnlyCalledFrom(p, h, al, 2) {
+				seen[h] = true
+				out = append(out, h)
+			}
+		}
+	}
+	return out
+}
